@@ -245,7 +245,7 @@ record in the index (the declared one if there is one, else the computed one). -
 def commitChecks (w : Writer) (wsri : Integrity) : Res Integrity :=
   match w.opts.sri with
   | some s =>
-    if (Sri.matchesSri s wsri).isNone then .error .integrity
+    if (Sri.declaredOk s wsri).isNone then .error .integrity
     else sizeCheck s
   | none => sizeCheck wsri
 where
@@ -538,7 +538,7 @@ def lcommit (l : Linker) : Prog (Res Integrity) := do
                                                            size := some (l.opts.size.getD readN) }
             | none => pure (.ok sri)
         match l.opts.sri with
-        | some s => if (Sri.matchesSri s sri).isNone then pure (.error .integrity) else go s
+        | some s => if (Sri.declaredOk s sri).isNone then pure (.error .integrity) else go s
         | none => go sri
 
 end Cacache
